@@ -142,7 +142,7 @@ impl Property for C12 {
             real: &["src/hot_reloading/watcher.rs (FsWatcherBuilder, EventHandlerPayload, NotifyEventHandler, id_of_path)", "src/utils/private.rs (IdBuilder, extension_of, path_of_entry)", "src/source/filesystem.rs (path_of)", "notify's event types (real crate); a real scratch directory (the handler calls Path::is_dir)"],
             stub: &["notify back-end (inotify): the simulator delivers notify::Event values to the registered handler on a simulated watcher thread, for real operations done on the scratch directory and for synthetic notifications of every kind", "the receiving end of the EventSender is the probe of hook H7"],
             assumptions: &["the stub delivers, per operation, the event kinds notify 6.1.1's inotify back-end produces (create: Create(File|Folder); write: Modify(Data); rename: Modify(Name(From)) then Modify(Name(To)); delete: Remove(File|Folder))", "id <-> path round trip is a pure function of its input: exercised as generated data, not decided by scheduling"],
-            runs: (6_000, 300_000),
+            runs: (150_000, 4_500_000),
         }
     }
     fn generate(&self, g: &mut SplitMix, k: &mut SplitMix, _tier: Tier) -> (Knobs, Value) {
